@@ -242,6 +242,7 @@ static void run_once(const struct driver *d, struct sched_trace *tr, const unsig
         int wb = d->pre_be == RS_ ? 2 : d->pre_be == XR_ ? 4 : 1; shared_len = (size_t)(2 * d->pre_k * wb + 5); memset(shared_data, 0x5a, sizeof shared_data); vh_fill(shared_data, shared_len, PAT_RAMP);
         if (liberasurecode_encode(pre_desc[0], (char *)shared_data, shared_len, &shared_ed, &shared_ep, &shared_fl)) { fprintf(stderr, "driver %s: cannot encode the shared stripe\n", d->name); _exit(2); }
     }
+    sched_resolve_locks();
     sched_init(tr, prefix, nprefix, d->nthreads);
     pthread_t th[SCHED_MAXT]; struct targ ta[SCHED_MAXT];
     for (int i = 0; i < d->nthreads; i++) { ta[i].d = d; ta[i].tid = i; RES[i].h = 1469598103934665603ull; pthread_create(&th[i], NULL, thread_main, &ta[i]); }
